@@ -15,13 +15,13 @@ claim("C09",
  "DESIGN.md §3 C09")
 
 claim("C15",
- "Static comparator discipline: over every function reachable (call graph) from a sort.Interface Less method or the COMPARE/MIN/MAX handlers, and over the whole module, no ordering decision is taken from the sign of an integer difference (overflow => not antisymmetric); no explicit panic is reachable from a comparator; node arrays are sorted only with stable sort entry points; the sorted result is rebuilt from every element. Necessary conditions of antisymmetry, totality (no crash) and stability/permutation.",
+ "Static comparator discipline: over every function reachable (call graph) from a sort.Interface Less method or the COMPARE/MIN/MAX handlers, and over the whole module, no ordering decision is taken from the sign of an integer difference (overflow => not antisymmetric); no explicit panic is reachable from a comparator; node arrays are sorted only with stable sort entry points; the sorted result is rebuilt from every element; both comparators parse numbers with the same functions. Necessary conditions of antisymmetry, totality (no crash) and stability/permutation.",
  TB + " Call graph: CHA (quick), VTA (thorough).",
  "static analysis: SSA value-flow pattern (difference -> sign test, across calls), call-graph reachability of panic, who-may-call on sort entry points, control-dependence of the rebuild loop",
  "DESIGN.md §3 C15")
 
 claim("C17",
- "Static character-class and taint analysis: the set of runes @sh leaves unquoted is computed from the unsafeChars regex constant and from the shape of shouldQuote (every returned value is `true` or the regex verdict) and must be a subset of the POSIX-inert set; the -o=shell name mapper and value-bypass predicates are evaluated exactly by interval algebra over their syntax and must stay within [A-Za-z0-9_]; the quoted form of quoteValue must be '..' with a valid quote idiom; scalar text reaches a writer only through the sanitisers (value-flow over SSA). Necessary conditions: one unsafe rune in a safe class is an injection for the string consisting of it.",
+ "Static character-class and taint analysis: the set of runes @sh leaves unquoted is computed from the unsafeChars regex constant and from the shape of shouldQuote (every returned value is `true` or the regex verdict) and must be a subset of the POSIX-inert set; the -o=shell name mapper and value-bypass predicates are evaluated exactly by a rune-set algebra over their syntax (comparisons of the rune or of a term built by narrowing conversions / bit operations / arithmetic with constants, whose preimage over the finite rune domain is computed exactly; &&, ||, !, if-return, switch, single definitions) and must stay within [A-Za-z0-9_]; the quoted form of quoteValue must be '..' with a valid quote idiom; scalar text reaches a writer only through the sanitisers (value-flow over SSA). Necessary conditions: one unsafe rune in a safe class is an injection for the string consisting of it.",
  TB + " POSIX shell quoting rules (inert set, the two quote idioms) are the reference.",
  "static analysis: regex class computed from the source constant, exact rune-set abstract interpretation of predicate syntax, SSA return-leaf and taint-flow rules",
  "DESIGN.md §3 C17")
@@ -45,7 +45,7 @@ claim("C08",
  "DESIGN.md §2.2, §3 C08")
 
 claim("C10",
- "Static loop-shape and state analysis of the per-document pipeline: in streamEvaluator.Evaluate and readDocuments every path from Decode to the use of the node passes the three provenance stores with the right sources (CFG must-pass-through), the document counter is the loop-carried phi(0, counter+1) advanced after the document was consumed, the file counter advances once at EOF; the evaluation context is built from a list created inside the iteration and exactly one PrintResults prints this iteration's result; (engine E1) no handler stores document-dependent or late values into objects of the shared parsed expression tree and no handler except REF returns a node of that tree (literals are copied on use); every decoder field written by Decode is reset by Init. Necessary conditions of document independence and true provenance.",
+ "Static loop-shape and state analysis of the per-document pipeline: in streamEvaluator.Evaluate and readDocuments every path from Decode to the use of the node passes the three provenance stores with the right sources (CFG must-pass-through), the document counter is the loop-carried phi(0, counter+1) advanced after the document was consumed, the file counter advances once at EOF; the evaluation context is built from a list created inside the iteration and exactly one PrintResults prints this iteration's result; (engine E1) no handler stores document-dependent or late values into objects of the shared parsed expression tree and no handler except REF returns a node of that tree (literals are copied on use); every decoder field written by Decode is reset by Init; the zero-documents fallback tests a total accumulated over all files. Necessary conditions of document independence and true provenance.",
  TB,
  "static analysis: CFG must-pass-through, SSA phi-shape recognition, summary-based mutation-footprint analysis (E1) rooted at the expression-node parameter, sibling field-write comparison (Init vs Decode)",
  "DESIGN.md §3 C10")
@@ -57,9 +57,9 @@ claim("C18",
  "DESIGN.md §3 C18")
 
 claim("C02",
- "Static analysis of the assignment primitives with engine E1 summaries: UpdateFrom / UpdateAttributesFrom store nothing of the assigned value into the target but scalars, fresh deep copies and the Alias pointer, replace Kind/Content/Value on every path (CFG must-pass-through), and write only fields of the receiver; everything the ASSIGN handlers write goes through them on a match or is guarded auto-creation; compound assignment applies its operator to a Copy() of the match; and the 42 operand evaluations that are read-only on the pinned tree (RHS of `=`, index expressions, operator operands) stay read-only. Necessary conditions of put-get / put-put / frame: aliasing RHS nodes, a store outside the receiver, or a writable operand evaluation each break a law for some input.",
+ "Static analysis of the assignment primitives with engine E1 summaries: UpdateFrom / UpdateAttributesFrom store nothing of the assigned value into the target but scalars, fresh deep copies and the Alias pointer, replace Kind/Content/Value on every path (CFG must-pass-through), and write only fields of the receiver; everything the ASSIGN handlers write goes through them on a match or is guarded auto-creation; compound assignment applies its operator to a Copy() of the match; `|=` hands UpdateFrom the first result of the right-hand side (not a loop variable over all results); a length snapshot of a node's Content is never used after a possible resize of that Content without being re-taken (resize summaries computed to a fixed point); and the 42 operand evaluations that are read-only on the pinned tree (RHS of `=`, index expressions, operator operands) stay read-only. Necessary conditions of put-get / put-put / frame: aliasing RHS nodes, a store outside the receiver, or a writable operand evaluation each break a law for some input.",
  TB + " Read-only reference table: ref_readonly.go.",
- "static analysis: summary-based mutation-footprint / provenance analysis (E1), CFG must-pass-through, SSA pattern for the copy in compound assignment, evaluation-site census",
+ "static analysis: summary-based mutation-footprint / provenance analysis (E1), CFG must-pass-through, SSA pattern for the copy in compound assignment, CFG reachability of stale length snapshots with inter-procedural resize summaries, evaluation-site census",
  "DESIGN.md §3 C02")
 claim("C03",
  "Static analysis of delete: the E1 footprints of deleteFromMap / deleteFromArray are exactly {parent.Content, index keys of surviving children} and everything deleteChildOperator writes goes through them; the selection is evaluated read-only; the victim is located by equality (no glob/pattern matcher reachable, no string==interface{} comparison); AddChild's key discipline (one known finding: a child that already has a key keeps its old index, which makes delete on re-ordered containers remove the wrong element). Necessary conditions only.",
@@ -67,9 +67,9 @@ claim("C03",
  "static analysis: E1 footprint comparison against the expected set, static reachability (who-may-call the glob matcher), SSA comparison-shape rule",
  "DESIGN.md §3 C03")
 claim("C04",
- "Static analysis of deep merge: E1 shows that from the MULTIPLY handler through the crossFunction callback, mergeObjects and applyAssignment (locally built ASSIGN / ASSIGN_ATTRIBUTES / ADD_ASSIGN expressions evaluated on a fresh copy of the left operand) no store reaches a node of the operands or the context; the writable context created for the merge never meets a user sub-expression; UpdateFrom deep-copies (result shares no node with the right operand); a reaching-definitions check shows the merge preferences always carry DontFollowAlias. Necessary conditions of operand immutability.",
+ "Static analysis of deep merge: E1 shows that from the MULTIPLY handler through the crossFunction callback, mergeObjects and applyAssignment (locally built ASSIGN / ASSIGN_ATTRIBUTES / ADD_ASSIGN expressions evaluated on a fresh copy of the left operand) no store reaches a node of the operands or the context; the writable context created for the merge never meets a user sub-expression; UpdateFrom deep-copies (result shares no node with the right operand); a reaching-definitions check shows the merge preferences always carry DontFollowAlias; the merge callback returns only objects allocated during the call; a function that receives a preferences struct hands its callees that struct (or a copy with overrides), never a fresh literal (23 sites incl. the recursive builder of the deep-merge assignments). Necessary conditions of operand immutability.",
  TB,
- "static analysis: summary-based mutation-footprint analysis (E1) incl. locally built dynamic evaluations, writable-context taint, CFG reaching-definitions on a preference field",
+ "static analysis: summary-based mutation-footprint analysis (E1) incl. locally built dynamic evaluations, writable-context taint, CFG reaching-definitions on a preference field, SSA argument-provenance rule for preference forwarding",
  "DESIGN.md §3 C04")
 claim("C07",
  "Static analysis of what an update may touch: footprints of the assignment primitives and of delete confined to the addressed node / the parent's child list (E1); every comment / style / anchor / tag store in UpdateAttributesFrom is control-dependent on the new value bringing that attribute (dominator guards); Copy() carries every CandidateNode field and shares nothing but Parent/Alias; operands evaluated read-only on the pinned tree stay read-only (an index expression may not auto-create keys outside the target). Necessary conditions: an unconditional attribute store or a store outside the target is exactly 'presentation changed without being asked'.",
@@ -88,23 +88,23 @@ claim("C05",
  "static analysis: field read/write set comparison over SSA, constant-table bijection check on the AST, struct-literal coverage, literal agreement",
  "DESIGN.md §3 C05")
 claim("C06",
- "Static check of the YAML<->JSON conversion paths: every json encoder reaches Encode only after SetEscapeHTML(false) (CFG must-pass-through); JSON scalars are decoded with UseNumber and no unsigned->signed conversion is applied to parsed integers; only the printer invokes Encoder.Encode, after testing CanHandleAliases and exploding on the negative branch; no Go map is a decode target or ranged over; MarshalJSON returns the scalar conversion error. Necessary conditions of value-exactness; string escaping and float formatting are delegated to goccy/go-json and not decided.",
+ "Static check of the YAML<->JSON conversion paths: every json encoder reaches Encode only after SetEscapeHTML(false) (CFG must-pass-through); JSON scalars are decoded with UseNumber and no unsigned->signed conversion is applied to parsed integers; only the printer invokes Encoder.Encode, after testing CanHandleAliases and exploding on the negative branch; no Go map is a decode target or ranged over; MarshalJSON returns the scalar conversion error; the latest anchor definition wins and merged values are exploded on every path. Necessary conditions of value-exactness; string escaping and float formatting are delegated to goccy/go-json and not decided.",
  TB,
  "static analysis: CFG must-pass-through, decode-target type census, who-may-call, dominator-guard recognition",
  "DESIGN.md §3 C06")
 claim("C13",
- "Narrow static check over the three read routes (traverse, explode, JSON encode): every site that classifies a map entry as a merge key uses the same predicate (tag !!merge); non-alias-capable encoders get exploded input; an anchor definition unconditionally replaces the previous one of that name; overrideEntry explodes the value on every successful path. Necessary conditions of route agreement; which source wins (explicit vs merged, list order) is a value-level fact and NOT decided.",
+ "Narrow static check over the three read routes (traverse, explode, JSON encode): every site that classifies a map entry as a merge key uses the same predicate (tag !!merge); non-alias-capable encoders get exploded input; an anchor definition unconditionally replaces the previous one of that name; overrideEntry explodes the value on every successful path; explodeNode's recursion into children is not conditional on the child. Necessary conditions of route agreement; which source wins (explicit vs merged, list order) is a value-level fact and NOT decided.",
  TB,
  "static analysis: sibling-predicate agreement over SSA comparisons, control-dependence of a map update, CFG must-pass-through",
  "DESIGN.md §3 C13")
 claim("C14",
- "Narrow static check of the other codecs: the Lua escape table (constants of the strings.NewReplacer call) maps every control byte, DEL, quotes and backslash to its decimal or named escape; for each Format record the encoder and decoder factories read the same Configured*Preferences; every codec operator the lexer can emit names a Format whose needed factory is non-nil; codec functions drop no error and flush their writers. Value fidelity of the codecs is delegated to third-party libraries and NOT decided.",
+ "Narrow static check of the other codecs: the Lua escape table (constants of the strings.NewReplacer call) maps every control byte, DEL, quotes and backslash to its decimal or named escape; for each Format record the encoder and decoder factories read the same Configured*Preferences; every codec operator the lexer can emit names a Format whose needed factory is non-nil; codec functions drop no error and flush their writers; a reused decoder is reset by Init; the XML encoder's key classifier consults every reserved-name preference the XML decoder builds keys with. Value fidelity of the codecs is delegated to third-party libraries and NOT decided.",
  TB,
- "static analysis: constant-table verification, registry/lexer-table cross-check (AST abstract evaluation), SSA error-discipline and flush pairing",
+ "static analysis: constant-table verification, registry/lexer-table cross-check (AST abstract evaluation), SSA error-discipline and flush pairing, field read-set agreement between sibling codec halves",
  "DESIGN.md §3 C14")
 
 claim("C11",
- "Static census of panic-capable constructs over the whole module, each an obligation decided on every run: explicit panic statements and panicking third-party APIs (only in a reasoned table / with constant arguments); unchecked Preferences type assertions checked against every construction site of the operation type (lexer rule table resolved through its factory closures + Operation literals in code); list-element typing; handler operand dereferences vs NumArgs; Front()/Back()/Alias dereferences under a nil or length test; constant and len-k index/slice bounds proved by dominator-based interval reasoning over len() or covered by a residual table that names the invariant; guarded division / Repeat / make. The 'never hangs' half of the property, general nil dereferences, third-party parser panics and stack exhaustion are NOT decided; variable-index expressions are only counted.",
+ "Static census of panic-capable constructs over the whole module, each an obligation decided on every run: explicit panic statements and panicking third-party APIs (only in a reasoned table / with constant arguments); unchecked Preferences type assertions checked against every construction site of the operation type (lexer rule table resolved through its factory closures + Operation literals in code); list-element typing; handler operand dereferences vs NumArgs; Front()/Back()/Alias dereferences under a nil or length test; constant and len-k index/slice bounds proved by dominator-based interval reasoning over len() or covered by a residual table that names the invariant; guarded division / Repeat / make; length snapshots of a node's Content are not used after a possible resize; the lexeme-slicing helpers are verified against the regex of every lexer rule that calls them. The 'never hangs' half of the property, general nil dereferences, third-party parser panics and stack exhaustion are NOT decided; variable-index expressions are only counted.",
  TB + " The residual tables in rules_c11.go (41 index sites, 2 list-end sites, 4 arithmetic sites, 1 accepted panic) were triaged by reading each site; every row carries its invariant.",
  "static analysis: panic-site census with dominator-based interval reasoning over len(), type-assertion / construction-site agreement from the extracted operator and lexer tables, nil-guard recognition",
  "DESIGN.md §3 C11")
